@@ -1,4 +1,5 @@
 import FmpRpc.Proofs.TransportInv
+import FmpRpc.Proofs.TransportInvA5
 /-
   C20 — each RPC is accounted exactly once (record counts; the size formula is
   checked by the correspondence run against the write log).  Hypothesis of the
@@ -15,19 +16,30 @@ theorem one_record_per_call (s : St) (hr : Reachable s) (c : Nat) :
     (s.callers c).records ≤ 1 ∧
     (∀ o, (s.callers c).pc = .ret o → (s.callers c).seq ≠ -1 → (s.callers c).records = 1) ∧
     (∀ o, (s.callers c).pc = .ret o → (s.callers c).seq = -1 → (s.callers c).records = 0) := by
-  sorry
+  have h := (CInv_reach s hr).loc c
+  have h0 := h.rec0; have h1 := h.rec1; have hr := h.recr
+  refine ⟨?_, ?_, ?_⟩
+  · cases hpc : (s.callers c).pc <;> simp [hpc] at h0 h1 hr <;> omega
+  · intro o hpc hq; simp [hpc] at hr; omega
+  · intro o hpc hq; simp [hpc] at hr; omega
 
 /-- one record per cancellation sent: as many cancel records as invocations of
     `handleCancel`, once the caller is past it -/
 theorem one_record_per_cancel (s : St) (hr : Reachable s) (c : Nat) :
     (s.callers c).cancels ≤ 1 ∧ (s.callers c).crecords ≤ (s.callers c).cancels ∧
     (∀ o, (s.callers c).pc = .ret o → (s.callers c).crecords = (s.callers c).cancels) := by
-  sorry
+  have h := (CInv_reach s hr).loc c
+  have h0 := h.can0; have h1 := h.can1; have h2 := h.can2
+  refine ⟨?_, ?_, ?_⟩
+  · cases hpc : (s.callers c).pc <;> simp [hpc] at h0 h1 h2 <;> omega
+  · cases hpc : (s.callers c).pc <;> simp [hpc] at h0 h1 h2 <;> omega
+  · intro o hpc; simp [hpc] at h2; omega
 
 theorem one_record_per_notify (s : St) (hr : Reachable s) (n : Nat) :
     (s.notifiers n).records ≤ 1 ∧
     (∀ o, (s.notifiers n).pc = .fin o → (s.notifiers n).records = 0) := by
-  sorry
+  have h := NInv_reach s hr
+  exact ⟨h.rec1 n, fun o hpc => h.rec0 n (by simp [hpc])⟩
 
 /-- every call a server replied to (or tried to) has exactly one record once
     its handler goroutine is past `Reply`; notifications have none -/
@@ -35,6 +47,10 @@ theorem one_record_per_served_call (s : St) (hr : Reachable s) (h : Nat) :
     (s.handlers h).records ≤ 1 ∧
     (((s.handlers h).pc = .endSel ∨ (s.handlers h).pc = .exited) →
       (s.handlers h).records = if (s.handlers h).isCall then 1 else 0) := by
-  sorry
+  have hk := (HAInv_reach s hr).loc h
+  obtain ⟨-, -, h3, -, h5⟩ := hk
+  refine ⟨?_, ?_⟩
+  · cases hpc : (s.handlers h).pc <;> simp [hpc] at h3 h5 <;> (try omega) <;> (rw [h5]; split <;> omega)
+  · rintro (hpc | hpc) <;> exact h5 (by simp [hpc])
 
 end FmpRpc.C20
